@@ -216,10 +216,16 @@ Definition contrib_dot (tr : list triple) (sval : nat -> Qc) : assoc :=
 Definition contrib_idx (tr : list triple) (sval : nat -> Qc) : assoc :=
   fold_left (fun a e => let '(w, s, t) := e in (t, sval s * w) :: a) tr [].
 
-Definition contrib (tsize ssize : nat) (m : mrg) (sval : nat -> Qc) : option assoc :=
+(* model switches of proposed repairs (flipped to true when the repair lands in /repo; read by harness/c04.py):
+   fixed_D32: the indexed branch broadcasts a single source unit instead of indexing a scalar
+   fixed_D21: a right-hand side of size one is broadcast to the shape of a vectorized state variable *)
+Definition fixed_D32 : bool := false.
+Definition fixed_D21 : bool := false.
+
+Definition contrib (f32 : bool) (tsize ssize : nat) (m : mrg) (sval : nat -> Qc) : option assoc :=
   let tr := zip3 (mw m) (ms m) (mt m) in
   if dot_edge tsize ssize (mt m) then Some (contrib_dot tr sval)
-  else if (ssize =? 1) && (1 <? length (mt m)) then None           (* D32: IndexError *)
+  else if negb f32 && (ssize =? 1) && (1 <? length (mt m)) then None           (* D32: IndexError *)
   else Some (contrib_idx tr sval).
 
 Fixpoint all_some {A} (l : list (option A)) : option (list A) :=
@@ -269,30 +275,31 @@ Definition compile (vec : bool) (c : circuit) : compiled :=
   Compiled vn ix (group_edges ix (cedges c)).
 
 (* input values of all units of target vector node tj *)
-Definition vn_inputs_gen (inp : list assoc -> Qc -> nat -> Qc) (by_var : bool) (vec : bool) (c : circuit) (st : list Qc) (k : compiled) (tj : nat)
+Definition vn_inputs_gen (inp : list assoc -> Qc -> nat -> Qc) (by_var f32 : bool) (vec : bool) (c : circuit) (st : list Qc) (k : compiled) (tj : nat)
   : option (list Qc) :=
   let mem_t := members (cvn k) tj in
   let tsize := if vec then length mem_t else 0%nat in
   let ml := merged by_var tj (cgroups k) in
   match all_some (map (fun m =>
             let mem_s := members (cvn k) (msrc m) in
-            contrib tsize (length mem_s) m (fun i => srcval c st (nth i mem_s 0%nat) (msv m))) ml) with
+            contrib f32 tsize (length mem_s) m (fun i => srcval c st (nth i mem_s 0%nat) (msv m))) ml) with
   | None => None
   | Some cs => Some (map (fun u => inp cs (crdef (node_cls c (nth u mem_t 0%nat))) u) (seq 0 (length mem_t)))
   end.
-Definition vn_inputs := vn_inputs_gen input_of true.
+Definition vn_inputs := vn_inputs_gen input_of true fixed_D32.
 
-Definition impl_gen (inp : list assoc -> Qc -> nat -> Qc) (by_var : bool) (vec : bool) (c : circuit) (st : list Qc) : option (list Qc) :=
+Definition impl_gen (inp : list assoc -> Qc -> nat -> Qc) (by_var f32 f21 : bool) (vec : bool) (c : circuit) (st : list Qc) : option (list Qc) :=
   let k := compile vec c in
-  if existsb (vn_err c) (cvn k) then None
-  else match all_some (map (vn_inputs_gen inp by_var vec c st k) (seq 0 (length (cvn k)))) with
+  if negb f21 && existsb (vn_err c) (cvn k) then None
+  else match all_some (map (vn_inputs_gen inp by_var f32 vec c st k) (seq 0 (length (cvn k)))) with
        | None => None
        | Some rv => Some (map (fun n => let '(j, i) := cidx k n in
                                         deriv_at c st n (nth i (nth j rv []) 0)) (seq 0 (length (cnodes c))))
        end.
-Definition impl := impl_gen input_of true.                         (* the code as it is now *)
-Definition impl_before_D59 := impl_gen input_of false.             (* the code before fix D59 (D3) *)
-Definition impl_before_D57 := impl_gen input_of_before_D57 false.  (* the code before fix D57 (D14) *)
+Definition impl := impl_gen input_of true fixed_D32 fixed_D21.                  (* the code as it is now *)
+Definition impl_loud := impl_gen input_of true false false.                     (* ... with the loud classes D32, D21 unrepaired *)
+Definition impl_before_D59 := impl_gen input_of false false false.              (* the code before fix D59 (D3) *)
+Definition impl_before_D57 := impl_gen input_of_before_D57 false false false.   (* the code before fix D57 (D14) *)
 
 (* explicit Euler on the frontend state with either derivative *)
 Definition euler_step (h : Qc) (st d : list Qc) : list Qc := map (fun p => fst p + h * snd p) (combine st d).
@@ -351,7 +358,7 @@ Definition no_scalar_fanout (c : circuit) : bool :=
                     negb (nodupb (pair_targets c e))) (cedges c).
 
 Definition guard (c : circuit) : bool :=
-  no_constant_rhs c && no_scalar_fanout c.
+  (fixed_D21 || no_constant_rhs c) && (fixed_D32 || no_scalar_fanout c).
 
 (* ------------------------------------------------------------------------------------------ comparison glue *)
 Fixpoint qlist_eqb (a b : list Qc) : bool :=
